@@ -1,30 +1,38 @@
 #!/bin/sh
 # Run once after a fresh restore, offline.  Prepares go.sum for the harness module and
-# warms the build cache by compiling every harness test binary once.
+# warms the build cache by compiling the test binary of every claimed check once
+# (plain and, where a sub-check needs it, with the race detector).
 set -e
 cd "$(dirname "$0")"
 export GOFLAGS=-mod=mod GOPROXY=off GOSUMDB=off GOTOOLCHAIN=local CGO_ENABLED=1
 cd harness
-# go.sum: the teamserver's own sums plus whatever the harness adds (rapid), kept in git;
+# go.sum: the teamserver's own sums plus what the harness adds (rapid), kept in git;
 # refresh the teamserver part in case /repo's go.sum changed.
 cat /repo/teamserver/go.sum go.sum 2>/dev/null | sort -u > go.sum.new && mv go.sum.new go.sum
-go build ./... 
-go vet -tags verif ./internal/... >/dev/null 2>&1 || true
-for d in c[0-9][0-9]; do
-  [ -d "$d" ] || continue
+python3 - <<'P' > /tmp/verif-setup-pkgs.$$
+import json, glob
+man = json.load(open('../MANIFEST.json'))
+claimed = {c['property_id'] for c in man['checks']}
+cfg = {}
+for f in glob.glob('../checks.d/*.json'):
+    cfg.update(json.load(open(f)))
+plain, race = set(), set()
+for pid, c in cfg.items():
+    if pid not in claimed:
+        continue
+    for s in c['subs']:
+        pkg = s.get('pkg', c['pkg'])
+        (race if s.get('race') else plain).add(pkg)
+        if s.get('fuzz'):
+            plain.add(pkg)
+print(' '.join(sorted(plain)))
+print(' '.join(sorted(race)))
+P
+PLAIN=$(sed -n 1p /tmp/verif-setup-pkgs.$$); RACE=$(sed -n 2p /tmp/verif-setup-pkgs.$$); rm -f /tmp/verif-setup-pkgs.$$
+for d in $PLAIN; do
   go test -c -tags verif -vet=off -o /dev/null ./$d || exit 1
 done
-# race builds used by the schedule checks
-for d in $(python3 -c "
-import json
-import glob
-c={}
-for f in glob.glob('../checks.d/*.json'): c.update(json.load(open(f)))
-s=set()
-for p in c.values():
-  for sub in p['subs']:
-    if sub.get('race'): s.add(sub.get('pkg',p['pkg']))
-print(' '.join(sorted(s)))"); do
+for d in $RACE; do
   go test -c -race -tags verif -vet=off -o /dev/null ./$d || exit 1
 done
 echo setup ok
